@@ -11,6 +11,8 @@
 //                            the document is the sequence of top-level nodes); reply describes what a
 //                            structural pre-order walk of the *real* tree sees and how the stored
 //                            indexes relate to it
+//   xmldoc <d> <hex> [r]     document from XML text (DOCTYPE, entities, CDATA …); identity <d>: every node reached by several
+//                            navigation routes is one object; nodesets <d>: whole-document node-sets are sets, in walk order
 //   build <d> F|D|B <events> drive FormatterToSourceTree / XalanSourceTreeContentHandler with an event sequence and compare
 //                            the stored indexes with the structural walk of the tree built (see doBuild)
 //   after <n1> <n2>          XPathExecutionContext::isNodeAfter(n1, n2)        -> 0 | 1
@@ -127,6 +129,13 @@ static bool shapeToXml(const std::string& s, size_t& i, std::string& out, int de
             ++i;
             lastWasText = true;
         }
+        else if (c == 'd')
+        {
+            if (depth == 0) return false;       // a CDATA section: character data, its own DOM node in the Xerces DOM
+            out += "<![CDATA[cd]]>";
+            ++i;
+            lastWasText = false;
+        }
         else if (c == 'c')
         {
             out += "<!--c-->";
@@ -197,6 +206,9 @@ static void walk(Session& s, int d, DocInfo& di, XalanNode* n, int parentNo)
     case XalanNode::ELEMENT_NODE: k = 'e'; break;
     case XalanNode::ATTRIBUTE_NODE: k = 'a'; break;
     case XalanNode::TEXT_NODE: k = 't'; break;
+    case XalanNode::CDATA_SECTION_NODE: k = 'd'; break;
+    case XalanNode::ENTITY_REFERENCE_NODE: k = 'r'; break;
+    case XalanNode::DOCUMENT_TYPE_NODE: k = 'y'; break;
     case XalanNode::COMMENT_NODE: k = 'c'; break;
     case XalanNode::PROCESSING_INSTRUCTION_NODE: k = 'p'; break;
     default: break;
@@ -516,6 +528,214 @@ static std::string doBuild(Session& s, int d, char mode, const std::string& ev)
     return o.str();
 }
 
+static std::string unhex(const std::string& h)
+{
+    std::string o;
+    for (size_t i = 0; i + 1 < h.size(); i += 2) o += char(strtol(h.substr(i, 2).c_str(), 0, 16));
+    return o;
+}
+
+// xmldoc <d> <hex of the XML text> <flags>: a document given as text (DOCTYPE with internal subset, entity references,
+// CDATA sections, ID attributes …) in the session's representation.  flag r: keep EntityReference nodes in the Xerces DOM.
+static std::string doXmlDoc(Session& s, int d, const std::string& hex, const std::string& flags)
+{
+    if (s.docs.count(d)) return "bad duplicate doc";
+    const std::string xml = unhex(hex);
+    DocInfo& di = s.docs[d];
+    std::ostringstream sysid;
+    sysid << "memx" << d << ".xml";
+    const MemBufInputSource src(reinterpret_cast<const XMLByte*>(xml.data()), xml.size(), sysid.str().c_str());
+    if (s.rep == 'S')
+    {
+        di.doc = s.stLiaison->parseXMLStream(src);
+    }
+    else
+    {
+        di.parser.reset(new XercesDOMParser);
+        di.parser->setDoNamespaces(true);
+        di.parser->setCreateEntityReferenceNodes(flags.find('r') != std::string::npos);
+        di.parser->parse(src);
+        if (di.parser->getDocument() == 0 || di.parser->getDocument()->getDocumentElement() == 0) return "bad parse";
+        di.doc = s.xLiaison->createDocument(di.parser->getDocument(), false, s.rep == 'W', false);
+    }
+    if (di.doc == 0) return "bad parse";
+    walk(s, d, di, di.doc, -1);
+    std::ostringstream o;
+    o << "xmldoc n=" << di.nodes.size() << " kinds=" << di.kinds;
+    return o.str();
+}
+
+struct IdentityCheck
+{
+    Session&        s;
+    int             d;
+    long            checks;
+    std::string     bad;
+
+    int pre(const XalanNode* n) const
+    {
+        std::map<const XalanNode*, std::pair<int,int> >::const_iterator i = s.ids.find(n);
+        return (i == s.ids.end() || i->second.first != d) ? -1 : i->second.second;
+    }
+    void expect(bool ok, const char* route, size_t at)
+    {
+        ++checks;
+        if (!ok && bad.empty())
+        {
+            std::ostringstream o;
+            o << route << " at " << at;
+            bad = o.str();
+        }
+    }
+};
+
+// identity <d>: one XalanNode per node of the document, whichever way it is reached
+static std::string doIdentity(Session& s, int d)
+{
+    std::map<int, DocInfo>::iterator it = s.docs.find(d);
+    if (it == s.docs.end()) return "bad doc";
+    DocInfo& di = it->second;
+    IdentityCheck c = { s, d, 0, std::string() };
+    bool docLastChildBad = false;
+    const size_t n = di.nodes.size();
+    // children of every node, by pre-order number
+    std::vector<std::vector<size_t> > kids(n), attrs(n);
+    for (size_t k = 1; k < n; ++k)
+    {
+        if (di.kinds[k] == 'a') attrs[di.parent[k]].push_back(k); else kids[di.parent[k]].push_back(k);
+    }
+    for (int round = 0; round < 2; ++round)     // everything twice: a node reached again must be the same object
+    for (size_t k = 0; k < n; ++k)
+    {
+        XalanNode* const node = di.nodes[k];
+        if (di.kinds[k] == 'a')
+        {
+            const XalanNode* const owner = DOMServices::getParentOfNode(*node);
+            c.expect(owner == di.nodes[di.parent[k]], "getParentOfNode(attribute)", k);
+            c.expect(node->getOwnerDocument() == di.doc, "attribute.getOwnerDocument", k);
+            continue;
+        }
+        // forward walk: firstChild / nextSibling
+        size_t j = 0;
+        for (XalanNode* ch = node->getFirstChild(); ch != 0; ch = ch->getNextSibling(), ++j)
+        {
+            c.expect(j < kids[k].size() && ch == di.nodes[kids[k][j]], "firstChild/nextSibling", k);
+            if (j < kids[k].size())
+            {
+                c.expect(DOMServices::getParentOfNode(*ch) == node, "getParentOfNode(child)", kids[k][j]);
+                c.expect(ch->getParentNode() == node, "child.getParentNode", kids[k][j]);
+            }
+            if (j > kids[k].size() + 2) break;
+        }
+        c.expect(j == kids[k].size(), "number of children (forward)", k);
+        // backward walk: lastChild / previousSibling.  (The document node's own getLastChild() is reported on its own:
+        // docLastChild.)
+        j = kids[k].size();
+        XalanNode* lastCh = node->getLastChild();
+        if (k == 0)
+        {
+            if (!kids[0].empty() && lastCh != di.nodes[kids[0].back()]) docLastChildBad = true;
+            lastCh = kids[0].empty() ? 0 : di.nodes[kids[0].back()];
+        }
+        for (XalanNode* ch = lastCh; ch != 0; ch = ch->getPreviousSibling())
+        {
+            if (j == 0) { c.expect(false, "lastChild/previousSibling (too many)", k); break; }
+            --j;
+            c.expect(ch == di.nodes[kids[k][j]], "lastChild/previousSibling", k);
+        }
+        c.expect(j == 0, "number of children (backward)", k);
+        // attributes: item(i), getNamedItem(name), owner element
+        const XalanNamedNodeMap* const map = di.kinds[k] == 'e' ? node->getAttributes() : 0;
+        if (map != 0)
+        {
+            c.expect(map->getLength() == attrs[k].size(), "attributes.getLength", k);
+            for (XalanSize_t a = 0; a < map->getLength() && a < attrs[k].size(); ++a)
+            {
+                XalanNode* const at = map->item(a);
+                c.expect(at == di.nodes[attrs[k][a]], "attributes.item", attrs[k][a]);
+                if (at != 0)
+                {
+                    c.expect(map->getNamedItem(at->getNodeName()) == at, "attributes.getNamedItem", attrs[k][a]);
+                    c.expect(DOMServices::getParentOfNode(*at) == node, "getParentOfNode(attributes.item)", attrs[k][a]);
+                }
+            }
+        }
+        if (k != 0) c.expect(node->getOwnerDocument() == di.doc, "getOwnerDocument", k);
+    }
+    // the document element, and elements by ID where the document type declares ID attributes
+    XalanElement* const de = di.doc->getDocumentElement();
+    c.expect(de == 0 || c.pre(de) > 0, "getDocumentElement", 0);
+    for (size_t k = 1; k < n; ++k)
+    {
+        if (di.kinds[k] != 'e') continue;
+        const XalanNamedNodeMap* const map = di.nodes[k]->getAttributes();
+        const XalanNode* const idAttr = map != 0 ? map->getNamedItem(XalanDOMString("id")) : 0;
+        if (idAttr != 0)
+        {
+            const XalanElement* const e = di.doc->getElementById(idAttr->getNodeValue());
+            c.expect(e == 0 || e == di.nodes[k], "getElementById", k);      // 0: not declared as ID
+        }
+    }
+    std::ostringstream o;
+    if (c.bad.empty()) o << "identity ok nodes=" << n << " checks=" << c.checks;
+    else o << "identity BAD " << c.bad << " (nodes=" << n << " kinds=" << di.kinds << ")";
+    if (docLastChildBad) o << " docLastChild=BAD";
+    return o.str();
+}
+
+// nodesets <d>: node-sets over the whole document hold each node once (by object identity), only nodes the structural
+// walk knows, in the order of the walk; E|E has the size of E
+static std::string doNodeSets(Session& s, int d)
+{
+    std::map<int, DocInfo>::iterator it = s.docs.find(d);
+    if (it == s.docs.end()) return "bad doc";
+    DocInfo& di = it->second;
+    static const char* const exprs[] = { "//node()", "/*/node()", "//text()", "//node()|//@*", "//*|//text()|//comment()",
+        "//node()/..", "//node()/ancestor-or-self::node()", "//text()/following::node()", "//node()/preceding-sibling::node()",
+        "//*/node()[last()]", "/*/node()/following-sibling::node()" };
+    const HarnessPrefixResolver resolver(di.doc);
+    long total = 0;
+    for (size_t e = 0; e < sizeof(exprs) / sizeof(exprs[0]); ++e)
+    {
+        size_t sizes[2] = { 0, 0 };
+        for (int dbl = 0; dbl < 2; ++dbl)
+        {
+            std::string x = exprs[e];
+            if (dbl) x = "(" + x + ")|(" + x + ")";
+            NodeRefList result(XalanMemMgrs::getDefaultXercesMemMgr());
+            s.evaluator->selectNodeList(result, s.domSupport(), di.doc, XalanDOMString(x.c_str()).c_str(), resolver);
+            sizes[dbl] = result.getLength();
+            int last = -1;
+            for (NodeRefListBase::size_type k = 0; k < result.getLength(); ++k)
+            {
+                std::map<const XalanNode*, std::pair<int,int> >::const_iterator i = s.ids.find(result.item(k));
+                std::ostringstream o;
+                if (i == s.ids.end() || i->second.first != d)
+                {
+                    o << "nodesets BAD " << x << " delivers a node object the structural walk never met (position " << k << " of " << result.getLength() << ")";
+                    return o.str();
+                }
+                if (i->second.second <= last)
+                {
+                    o << "nodesets BAD " << x << " out of order or duplicate at position " << k << " (" << last << " then " << i->second.second << ")";
+                    return o.str();
+                }
+                last = i->second.second;
+            }
+            total += result.getLength();
+        }
+        if (sizes[0] != sizes[1])
+        {
+            std::ostringstream o;
+            o << "nodesets BAD count(" << exprs[e] << ")=" << sizes[0] << " but count(E|E)=" << sizes[1];
+            return o.str();
+        }
+    }
+    std::ostringstream o;
+    o << "nodesets ok sets=" << 2 * (sizeof(exprs) / sizeof(exprs[0])) << " nodes=" << total;
+    return o.str();
+}
+
 static std::string handle(const std::string& line)
 {
     std::istringstream in(line);
@@ -540,6 +760,12 @@ static std::string handle(const std::string& line)
     {
         return doDoc(s, atoi(t[1].c_str()), t[2]);
     }
+    if (op == "xmldoc" && (t.size() == 3 || t.size() == 4))
+    {
+        return doXmlDoc(s, atoi(t[1].c_str()), t[2], t.size() == 4 ? t[3] : std::string());
+    }
+    if (op == "identity" && t.size() == 2) return doIdentity(s, atoi(t[1].c_str()));
+    if (op == "nodesets" && t.size() == 2) return doNodeSets(s, atoi(t[1].c_str()));
     if (op == "build" && t.size() == 4 && t[2].size() == 1)
     {
         return doBuild(s, atoi(t[1].c_str()), t[2][0], t[3]);
